@@ -93,7 +93,8 @@ struct Expr
     FOR_OF,     // for Q of S : ( body )
     FOR_RANGE,  // for Q v in (a..b) : ( body )
     FOR_ENUM,   // for Q v in (e1, e2, ..) : ( body )   (ints or text strings)
-    RULE_REF
+    RULE_REF,
+    OF_RULES    // Q of (r1, q*)   rule set: rnames = the member rules, set_text = printed form
   } k = BOOL_LIT;
   Ty ty = TB;
   int64_t ival = 0;
@@ -111,6 +112,7 @@ struct Expr
   std::vector<int> set;
   std::string set_text;  // printed form: "them", "($*)", "($_s*)", "($_s1, $_t1)"
   int of_form = 0;       // OF: 0 plain, 1 in (ch[0]..ch[1]), 2 at ch[0]
+  std::vector<std::string> rnames;  // OF_RULES: the rules the set expands to, in definition order
 };
 
 // ---------------------------------------------------------------- printer
@@ -148,6 +150,7 @@ static int expr_level(const Expr& e)
   case Expr::FOUND_IN:
   case Expr::COUNT_IN:
   case Expr::OF:
+  case Expr::OF_RULES:
   case Expr::FOR_OF:
   case Expr::FOR_RANGE:
   case Expr::FOR_ENUM:
@@ -282,6 +285,8 @@ static std::string print_expr(const Expr& e, const PrintCtx& pc)
       s += " at " + paren_if(e.ch[0], 8, pc);
     return s;
   }
+  case Expr::OF_RULES:
+    return print_quant(e, pc) + " of " + e.set_text;
   case Expr::FOR_OF:
     return "for " + print_quant(e, pc) + " of " + e.set_text + " : (" + print_expr(e.ch[0], pc) + ")";
   case Expr::FOR_RANGE:
@@ -645,6 +650,14 @@ static Val eval(const Expr& e, EvalCtx& cx)
     }
     return quant_result(e, cx, found, (int64_t) e.set.size(), false);
   }
+  case Expr::OF_RULES:
+  {
+    // writingrules.rst "rule sets": the quantifier applies to the truth values of the listed rules
+    // (a wildcard stands for the rules of the current namespace defined so far whose name has the prefix)
+    int64_t found = 0;
+    for (auto& n : e.rnames) found += cx.rules[n] ? 1 : 0;
+    return quant_result(e, cx, found, (int64_t) e.rnames.size(), false);
+  }
   case Expr::FOR_OF:
   {
     int64_t found = 0;
@@ -698,6 +711,8 @@ struct GenCtx
 {
   std::vector<std::string> str_ids;   // "$_s1" ...
   std::vector<std::string> rule_ids;  // earlier rules
+  // rule sets that may be used here: printed form -> member rules (earlier rules of the namespace)
+  std::vector<std::pair<std::string, std::vector<std::string>>> rule_sets;
   std::vector<std::pair<std::string, Ty>> loopvars;
   int loops = 0;        // current loop nesting
   bool in_for_of = false;
@@ -1036,7 +1051,8 @@ static Expr gen_bool(Src& s, GenCtx& g, int depth)
   bool can_loop = !leaf && g.loops < 4;
   int k = (int) s.weighted({4, has_str ? 14 : 0, has_str ? 8 : 0, has_str ? 6 : 0, 16, 8, leaf ? 0 : 9, leaf ? 0 : 4,
                             leaf ? 0 : 12, leaf ? 0 : 12, has_str ? 10 : 0, can_loop && has_str && !g.in_for_of ? 8 : 0,
-                            can_loop ? 8 : 0, can_loop ? 6 : 0, g.rule_ids.empty() ? 0 : 5, 3, 5});
+                            can_loop ? 8 : 0, can_loop ? 6 : 0, g.rule_ids.empty() ? 0 : 5, 3, 5,
+                            g.rule_sets.empty() ? 0 : 6});
   Expr e;
   e.ty = TB;
   switch (k)
@@ -1213,6 +1229,18 @@ static Expr gen_bool(Src& s, GenCtx& g, int depth)
     e.k = Expr::EXT;
     e.name = "xb";
     return e;
+  case 17:
+  {
+    auto& rs = g.rule_sets[s.range(0, g.rule_sets.size() - 1)];
+    e.k = Expr::OF_RULES;
+    e.set_text = rs.first;
+    e.rnames = rs.second;
+    e.q = (int) s.weighted({30, 35, 15, 20});
+    if (e.q == 3)
+      e.qe.push_back(mk_int((int64_t) s.range(1, e.rnames.size())));
+    g.n_ops++;
+    return e;
+  }
   default:
   {  // comparison with an undefined operand / boolean-level undefined
     static const char* ops[] = {"<", "<=", ">", ">=", "==", "!="};
